@@ -5,6 +5,8 @@ import (
 	"go/token"
 
 	"golang.org/x/tools/go/ssa"
+
+	"morlockverif/checker/internal/absint"
 )
 
 // ivInfo describes a counted loop variable: phi = [init, phi+step], guarded by "phi < bound" /
@@ -159,4 +161,46 @@ func reachableFrom(start *ssa.BasicBlock, stop map[*ssa.BasicBlock]bool) map[*ss
 	}
 	walk(start)
 	return seen
+}
+
+// symbolicEnvFor gives every SSA value defined in a block that strictly dominates start (plus
+// parameters) an uninterpreted term, so that a loop body can be interpreted in isolation.
+func symbolicEnvFor(fn *ssa.Function, start *ssa.BasicBlock) map[ssa.Value]absint.Value {
+	env := map[ssa.Value]absint.Value{}
+	for _, p := range fn.Params {
+		env[p] = absint.NewSym(p.Type(), p.Name())
+	}
+	for _, b := range fn.Blocks {
+		if b == start || !b.Dominates(start) {
+			continue
+		}
+		for _, ins := range b.Instrs {
+			v, ok := ins.(ssa.Value)
+			if !ok {
+				continue
+			}
+			name := v.Name()
+			if phi, ok := v.(*ssa.Phi); ok && phi.Comment != "" {
+				name = phi.Comment
+			}
+			env[v] = absint.NewSym(v.Type(), name)
+		}
+	}
+	return env
+}
+
+// loopHeaderOf returns the innermost loop header (block with a back edge) whose body contains b.
+func headerPhi(fn *ssa.Function, comment string) *ssa.Phi {
+	for _, b := range fn.Blocks {
+		for _, ins := range b.Instrs {
+			if phi, ok := ins.(*ssa.Phi); ok && phi.Comment == comment {
+				for _, p := range b.Preds {
+					if b.Dominates(p) {
+						return phi
+					}
+				}
+			}
+		}
+	}
+	return nil
 }
